@@ -633,6 +633,7 @@ type riCase struct {
 	tags       map[string]int
 	panic      string
 	concurrent string // first answer of a concurrent reader that differs from the sequential answer
+	totals     string // first per-store total (BasicCluster level) that matches no state of the cache
 }
 
 func (c riCase) coq() string {
@@ -1001,6 +1002,9 @@ func genRI(r *rng.R, a c07x.Alphabet, nmut int, malformed bool) riCase {
 	}
 	if !malformed {
 		g.heartbeatRace()
+		if d := g.roleFlips(400); d != "" {
+			c.totals = d
+		}
 	}
 	// concurrent readers on the final, unchanged region set
 	if d := g.concurrentReaders(60); d != "" {
@@ -1250,6 +1254,105 @@ func mergeSizeCase(sz int64) riCase {
 	return c
 }
 
+// bigScanCase: more regions than any constant in the scan path (base 1080 in the quick tier, 2100 in the thorough tier), then limited scans with limits around and above
+// those constants (1024, 1025, 2048, 5000) and unlimited ones, from the first key and from the middle: a limited scan returns
+// min(limit, number of regions in the range) regions.
+func bigScanCase(seed uint64, base int) riCase {
+	c := riCase{Kind: "ri", tags: map[string]int{"directed:scan-limits-above-2048-regions": 1}}
+	r := rng.New(seed)
+	g := &riGen{r: r, a: c07x.Small(), w: &world{ri: core.NewRegionsInfo()}, c: &c, stores: 1, cached: map[uint64]c07x.Region{}}
+	n := base + r.Intn(100)
+	key := func(i int) string { return fmt.Sprintf("s%04d", i) }
+	for i := 0; i < n; i++ {
+		id := uint64(i + 1)
+		x := c07x.Region{ID: id, Start: key(i), End: key(i + 1), Peers: []c07x.Peer{{ID: id + 100000, Store: 1}}, Leader: id + 100000,
+			Size: 1, Ver: 1, ConfVer: 1, Term: 1, Stamp: g.nextStamp()}
+		g.step(rop{K: "set", R: &x})
+	}
+	g.step(rop{K: "global"})
+	for _, lim := range []int{1024, 1025, 2048, 5000, 0} {
+		g.step(rop{K: "scan", S: "", E: "", Lim: lim})
+	}
+	g.step(rop{K: "scan", S: key(10) + "x", E: key(n - 5), Lim: 2049})
+	g.step(rop{K: "scan", S: key(40), E: "", Lim: 1500})
+	g.step(rop{K: "scan", S: key(n / 2), E: "", Lim: 5000})
+	g.step(rop{K: "counts", Store: 1})
+	return c
+}
+
+// roleFlips: one writer moves the leadership of a cached region back and forth between two of its voters (two stores) through
+// BasicCluster.PutRegion while readers ask BasicCluster for the totals of those stores (GetStoreRegionCount, GetStoreRegionSize).
+// A leader flip between two stores that both keep their peer changes no per-store total, so every answer must be the total
+// computed before the writer started; an answer that differs matches no state of the cache.  In the case text the phase is
+// `OSet a; OSet b` (the two alternating reports; the writer ends on b).  Returns a description of the first wrong answer.
+func (g *riGen) roleFlips(flips int) string {
+	x, ok := g.someCached()
+	if !ok || g.dead {
+		return ""
+	}
+	var voters []c07x.Peer
+	for _, p := range x.Peers {
+		if !p.Learner {
+			voters = append(voters, p)
+		}
+	}
+	if len(voters) < 2 || x.Start >= x.End && x.End != "" {
+		return ""
+	}
+	a, b := x.Clone(), x.Clone()
+	a.Leader, a.Stamp = voters[0].ID, g.nextStamp()
+	b.Leader, b.Stamp = voters[1].ID, g.nextStamp()
+	s1, s2 := voters[0].Store, voters[1].Store
+	g.step(rop{K: "set", R: &a}) // both reports once through the ordinary path: the model sees the same two puts
+	g.step(rop{K: "set", R: &b})
+	if g.dead {
+		return ""
+	}
+	bc := g.w.cluster()
+	want := [4]int64{int64(bc.GetStoreRegionCount(s1)), int64(bc.GetStoreRegionCount(s2)), bc.GetStoreRegionSize(s1), bc.GetStoreRegionSize(s2)}
+	ia, ib := a.Info(), b.Info()
+	stop := make(chan struct{})
+	diff := make(chan string, 4)
+	var wg sync.WaitGroup
+	for t := 0; t < 3; t++ {
+		wg.Add(1)
+		go func() {
+			defer wg.Done()
+			for {
+				select {
+				case <-stop:
+					return
+				default:
+				}
+				got := [4]int64{int64(bc.GetStoreRegionCount(s1)), int64(bc.GetStoreRegionCount(s2)), bc.GetStoreRegionSize(s1), bc.GetStoreRegionSize(s2)}
+				if got != want {
+					select {
+					case diff <- fmt.Sprintf("GetStoreRegionCount / GetStoreRegionSize of stores %d and %d answered %v while region %d only changed its leader between them; every state of the cache gives %v", s1, s2, got, x.ID, want):
+					default:
+					}
+					return
+				}
+			}
+		}()
+	}
+	for k := 0; k < flips; k++ {
+		bc.PutRegion(ia)
+		bc.PutRegion(ib)
+	}
+	close(stop)
+	wg.Wait()
+	g.c.tags["phase:role-flips-under-readers"]++
+	for st := 1; st <= g.stores+1; st++ {
+		g.step(rop{K: "counts", Store: uint64(st)})
+	}
+	select {
+	case d := <-diff:
+		return d
+	default:
+		return ""
+	}
+}
+
 // bigTreeReaders: a region tree with inner nodes (more regions than one btree node of degree 64 holds), then scans through
 // ScanRangeWithIterator whose iterator looks up a key far away (re-entrant reader: deterministic witness for read paths that
 // share state), ordinary lookups, and the concurrent readers.
@@ -1369,6 +1472,10 @@ func main() {
 		all = append(all, c)
 	}
 	emitRI := func(c riCase) {
+		if c.totals != "" {
+			R.Violate("C07:store-total-matches-no-state-of-the-cache", c.totals, map[string]interface{}{"kind": "ri", "ops": c.Ops})
+			R.Count("store-total-matches-no-state")
+		}
 		if c.concurrent != "" {
 			R.Violate("C07:concurrent-lookup-differs-from-sequential", c.concurrent+" (4 readers on the unchanged region set built by the replayed operations)", map[string]interface{}{"kind": "ri", "ops": c.Ops})
 			R.Count("concurrent-lookup-differs")
@@ -1494,6 +1601,7 @@ func main() {
 			emitRI(c)
 		}
 		emitRI(bigTreeReaders(*seed))
+		emitRI(bigScanCase(*seed, 1080)) // more regions than 1024; the case above 2048 regions runs in the thorough tier (its replay in Coq takes about a minute)
 		emitRI(mergeSizeCase(0))
 		emitRI(mergeSizeCase(1))
 		emitRI(widePeersCase(*seed))
@@ -1534,6 +1642,9 @@ func main() {
 				nmut = 25 + r.Intn(25)
 			}
 			emitRI(genRI(r, a, nmut, k%10 == 7))
+		}
+		if *tier == "thorough" {
+			emitRI(bigScanCase(*seed+1, 2100))
 		}
 		if *tier == "thorough" { // very long btree histories, at the end so that they share the last case files
 			for k, d := range []int{2, 3, 4, 64, 2, 3, 4, 64} {
